@@ -68,6 +68,9 @@ RefsOf(a) == IF \E i \in 1..1 : a = CNot(CNot(CId(r1))) THEN <<1>>
              ELSE IF a = CBin("cor", CId(r4), CBin("cand", CNot(CId(r2)), CId(r1))) THEN <<4, 2, 1>> ELSE <<1, 2>>
 CasesC == {[c |-> Corr(t, RefsOf(a), 2, [count |-> 5, unit |-> 109], Cond("ext", "gte", 1, FALSE, FALSE, CPrint(a, st)), FALSE), B |-> BSeq[b]] :
              t \in {3, 4}, a \in ExtAsts, st \in {"min", "full"}, b \in {1, 7, 20, 33}}
+          \* ... and certainly on backends WITH a typing phase (the references come from the condition alone here)
+          \cup {[c |-> Corr(t, RefsOf(a), 2, [count |-> 5, unit |-> 109], Cond("ext", "gte", 1, FALSE, FALSE, CPrint(a, "min")), FALSE), B |-> B] :
+             t \in {3, 4}, a \in ExtAsts, B \in {MkB("map", TRUE, TRUE, FALSE, "none"), MkB("sec", TRUE, FALSE, TRUE, "rename")}}
 \* (C') an extended condition AND an explicit rules list that names the rules in another order than the condition
 \*      mentions them: the list is what orders the embedded queries
 Rev(q) == [i \in 1..Len(q) |-> q[Len(q) + 1 - i]]
